@@ -24,7 +24,9 @@ FLOORS = {"quick": {"states_norm_checked": 300, "v1_v2_states_compared": 100, "d
                     "rabi_checked": 30, "bitstring_conventions_checked": 60, "detection_error_checks": 20,
                     "sweep_runs": 500, "v2_noisy_density_matrices_checked": 60,
                     "reconfigured_emulators_compared": 30, "v1_v2_density_matrices_compared": 30,
-                    "reduced_states_with_eliminated_population": 40},
+                    "reduced_states_with_eliminated_population": 40,
+                    "superposition_bitstring_distributions_checked_three_level": 10,
+                    "detection_error_expectations_checked_with_leakage": 20},
           "thorough": {"sweep_runs": 6000}}
 WEIGHTS = {"sample": 0, "str": 0, "to_abstract_repr": 0, "build_copy": 0, "queries": 0, "get_duration": 0,
            "estimate_added_delay": 0, "is_in_eom_mode": 0, "current_phase_ref": 0, "measure": 0.0, "add": 12,
@@ -387,6 +389,39 @@ def w_idle(ctx, rng, idx):
         except Exception as e:
             ctx.violation("v2-raises", f"V2 with initial product state raised {type(e).__name__}: {str(e)[:200]}",
                           f"v2-raises:initial-state:{type(e).__name__}")
+    # ---- V2 state object: a superposition over all product states of the basis in use (two or three levels per atom):
+    #      every basis state goes to its bitstring (the measured state -> 1, every other state -> 0), weights add up --------
+    import itertools
+    labels = ["".join(p) for p in itertools.product(states, repeat=n)]
+    raw = np.array([complex(rng.gauss(0, 1), rng.gauss(0, 1)) if rng.random() < 0.8 else 0j for _ in labels])
+    if not np.any(raw):
+        raw[0] = 1.0
+    raw = raw / np.linalg.norm(raw)
+    amps = {lb: complex(a) for lb, a in zip(labels, raw) if a != 0}
+    want: dict = {}
+    for lb, a in amps.items():
+        bsx = "".join("1" if ch == one else "0" for ch in lb)
+        want[bsx] = want.get(bsx, 0.0) + abs(a) ** 2
+    try:
+        stx = QutipState.from_state_amplitudes(eigenstates=tuple(states), amplitudes=amps)
+        probs = dict(stx.bitstring_probabilities(one_state=one, cutoff=0.0))
+        ctx.count("superposition_bitstring_distributions_checked")
+        if len(states) > 2:
+            ctx.count("superposition_bitstring_distributions_checked_three_level")
+        if abs(sum(float(v) for v in probs.values()) - 1) > 1e-9 or set(k for k, v in probs.items() if v > 1e-14) != set(
+                k for k, v in want.items() if v > 1e-14) or any(abs(float(probs.get(k, 0.0)) - v) > 1e-9 for k, v in want.items()):
+            ctx.violation("bitstring-convention", f"{mode} (measured state {one}): bitstring probabilities of a superposition "
+                          f"over {states}^{n} are {dict(sorted((k, round(float(v), 6)) for k, v in probs.items()))}, the "
+                          f"convention gives {dict(sorted((k, round(v, 6)) for k, v in want.items()))}",
+                          f"bitstring-distribution:{'three-level' if len(states) > 2 else 'two-level'}")
+        np.random.seed(idx + 5)
+        shots = stx.sample(num_shots=300, one_state=one)
+        if sum(shots.values()) != 300 or not set(shots) <= set(want):
+            ctx.violation("bitstring-convention", f"{mode}: sample() returned {dict(shots)} for a state whose bitstrings are "
+                          f"{sorted(want)}", "bitstring-sample")
+    except Exception as e:
+        ctx.violation("v2-raises", f"bitstring probabilities / sampling of a V2 state raised {type(e).__name__}: {str(e)[:200]}",
+                      f"v2-raises:bitstrings:{type(e).__name__}")
     ctx.mark_nontrivial(("idle", mode, n, tuple(config), idle))
 
 
@@ -423,6 +458,33 @@ def w_detect(ctx, rng, idx):
                       f"{p} configured (6 sigma = {6 * sigma:.1f})", "detection-errors:" + ("false-neg" if excited else "false-pos"))
     if sum(cnt.values()) != N:
         ctx.violation("detection-errors", f"{sum(cnt.values())} samples returned for {N} requested", "sample-count")
+    # ---- expectation values under detection errors: <n_r> of an atom in g is epsilon, of an atom in r it is
+    #      1 - epsilon', also when the basis carries the leakage state ----------------------------------------------
+    for leak in ((False, True) if (eps or epsp) else ()):  # (without detection errors expect() works on the full basis)
+        sq1 = one_pulse(200, omega=math.pi / 0.2, det=0.0, n=1)
+        kwl = dict(noise=("SPAM", "leakage", "eff_noise") if leak else "SPAM", eta=0.0, epsilon=eps, epsilon_prime=epsp,
+                   runs=1, samples_per_run=1)
+        if leak:
+            kwl.update(eff_noise_rates=[1e-9], eff_noise_opers=[qutip.Qobj(np.diag([0.0, 0.0, 1.0]))])
+        try:
+            with warnings.catch_warnings():
+                warnings.simplefilter("ignore")
+                e1 = QutipEmulator.from_sequence(sq1, config=SimConfig(**kwl))
+                e1.set_evaluation_times([0.0, 0.2])
+                r1 = e1.run()
+                nr = np.asarray(r1.expect([qutip.basis(2, 0).proj()])[0], dtype=float)
+        except Exception as e:
+            ctx.violation("detection-errors", f"expect() under detection errors ({'with' if leak else 'without'} leakage) raised "
+                          f"{type(e).__name__}: {str(e)[:160]}", f"detection-expect-raises:{type(e).__name__}")
+            continue
+        ctx.count("detection_error_expectations_checked")
+        if leak:
+            ctx.count("detection_error_expectations_checked_with_leakage")
+        if abs(nr[0] - eps) > 1e-6 or abs(nr[-1] - (1 - epsp)) > 2e-3:
+            ctx.violation("detection-errors", f"<n_r> under detection errors (epsilon={eps}, epsilon'={epsp}, "
+                          f"{'with' if leak else 'without'} leakage state): {nr[0]:.4f} for an atom in g (want {eps}), "
+                          f"{nr[-1]:.4f} after a pi pulse (want {1 - epsp})",
+                          "detection-expect:" + ("leakage-basis" if leak else "two-level"))
     # ---- same sequence + same configuration (detection errors only) on an emulator that drew badly prepared atoms
     #      under an earlier configuration: the states must be those of a fresh emulator (blockaded pair) -------------
     reg = pulser.Register({"a": (0.0, 0.0), "b": (5.0, 0.0)})
